@@ -437,8 +437,8 @@ def kLSTMCell (c : LCfg) : List Term :=
 def qGRUCell (c : LCfg) : List Term :=
   let h := qw c 3 (.state 0)
   let qk := qw c 0 (.weight 0)
-  -- `else: quantized_recurrent = self.kernel`   (sic: the input kernel, qrecurrent.py:1120)
-  let qr := if c.hasQ 1 then Term.quant 1 (.weight 1) else .weight 0
+  -- `else: quantized_recurrent = self.recurrent_kernel`  (repaired in 32aca3c; it was `self.kernel`)
+  let qr := qw c 1 (.weight 1)
   let qb := qw c 2 (.weight 2)
   let inB := if c.resetAfter then Term.op1 (.unstack 0) qb else qb
   let recB := Term.op1 (.unstack 1) qb      -- only used when reset_after
